@@ -35,7 +35,7 @@ DEDICATED = ('xdoctest.checker.GotWantException', 'xdoctest.checker.ExtractGotRe
 
 def run(ctx):
     for fn in (r1_escape_return_mode, r2_user_code_calls, r3_fail_store_leaves_loop, r4_render_index, r5_runner_policy, r6_plugin_render, r7_render_raises,
-               r8_failed_part_set_before_failure, r9_failing_line_source, r10_failed_summary_is_only_failed):
+               r8_failed_part_set_before_failure, r9_failing_line_source, r10_failed_summary_is_only_failed, r11_definite_assignment):
         ctx.rep.rule(fn, ctx)
 
 
@@ -773,6 +773,12 @@ def r7_render_raises(ctx):
     rep.note('explicit_raises_in_render_closure', n)
 
 
+def r11_definite_assignment(ctx):
+    """an UnboundLocalError raised inside the run / check / report code is not one of the failure kinds the part loop records: it escapes as a crash of the runner (DEFINITE-ASSIGNMENT, see common.definite_assignment)"""
+    from .common import definite_assignment
+    definite_assignment(ctx, 'C09.R11', {'xdoctest.doctest_example', 'xdoctest.checker', 'xdoctest.doctest_part', 'xdoctest.runner', 'xdoctest.directive', 'xdoctest.utils.util_stream'}, 60)
+
+
 # ---------------------------------------------------------------------------
 from ..selftest import fire, silent      # noqa: E402
 
@@ -780,6 +786,8 @@ DE = 'xdoctest/doctest_example.py'
 CK = 'xdoctest/checker.py'
 RN = 'xdoctest/runner.py'
 VARIANTS = [
+    fire('met-requirement-leaves-action-unassigned', 'C09.R11', ('xdoctest/directive.py', "                    # If the requirement is met, then do nothing,\n                    action = 'noop'\n", "                    # If the requirement is met, then do nothing,\n                    pass\n")),
+    fire('value-read-before-any-eval', 'C09.R11', ('xdoctest/doctest_example.py', "            got_eval = constants.NOT_EVALED\n", "            pass\n")),
     fire('fallback-repr-through-format', 'C09.R2', ('xdoctest/checker.py', "                try:\n                    got = repr(got_eval)\n                except Exception as ex:\n                    raise ExtractGotReprException('Error calling repr for {}. Caused by: {!r}'.format(type(got_eval), ex), ex)\n                flag = check_output(got, want, runstate)\n                if not flag:\n                    got = got_stdout\n", "                got = '{!r}'.format(got_eval)\n                flag = check_output(got, want, runstate)\n                if not flag:\n                    got = got_stdout\n")),
     fire('failed-part-set-after-directive-update', 'C09.R8', ('xdoctest/doctest_example.py', "                self.failed_part = part  # Assume part will fail (it may not)\n", ""), ('xdoctest/doctest_example.py', "                if not did_pre_import:\n", "                self.failed_part = part\n                if not did_pre_import:\n")),
     fire('report-line-from-f_lineno', 'C09.R9', ('xdoctest/doctest_example.py', "                            found_lineno = sub_tb.tb_lineno\n", "                            found_lineno = sub_tb.tb_frame.f_lineno\n")),
